@@ -301,6 +301,8 @@ class InterpreterBase:
             raise InvalidCodeOnVoid('not')
         if isinstance(v, Disabler):
             return v
+        # The negation of a version_compare() does not hold on the range of that check
+        self.tmp_meson_version = None
         return self._holderify(v.operator_call(MesonOperator.NOT, None))
 
     def evaluate_if(self, node: mparser.IfClauseNode) -> T.Optional[Disabler]:
@@ -356,6 +358,8 @@ class InterpreterBase:
             raise mesonlib.MesonException('Cannot compare a void statement on the right-hand side')
         if isinstance(val2, Disabler):
             return val2
+        # Comparing the result of a version_compare() with something says nothing about its range
+        self.tmp_meson_version = None
 
         op = operator.MAPPING[node.ctype]
 
@@ -389,9 +393,12 @@ class InterpreterBase:
         if isinstance(l, Disabler):
             return l
         l_bool = l.operator_call(MesonOperator.BOOL, None)
+        # A disjunction can hold outside the range of a version_compare() in one of its operands
+        self.tmp_meson_version = None
         if l_bool:
             return self._holderify(l_bool)
         r = self.evaluate_statement(cur.right)
+        self.tmp_meson_version = None
         if r is None:
             raise mesonlib.MesonException('Cannot compare a void statement on the right-hand side')
         if isinstance(r, Disabler):
